@@ -17,7 +17,7 @@ CLAUSE_START = {
     ("FORCE", "INDEX"): "FORCE INDEX", ("USE", "INDEX"): "USE INDEX", ("INSERT", "INTO"): "INSERT INTO", ("INSERT", "IGNORE", "INTO"): "INSERT INTO",
     ("REPLACE", "INTO"): "REPLACE INTO", ("VALUES",): "VALUES", ("UPDATE",): "UPDATE", ("SET",): "SET", ("DELETE",): "DELETE",
     ("ON", "CONFLICT"): "ON CONFLICT", ("DO", "NOTHING"): "DO NOTHING", ("DO", "UPDATE"): "DO UPDATE",
-    ("ON", "DUPLICATE", "KEY", "UPDATE"): "ON DUPLICATE KEY UPDATE", ("WITH",): "WITH", ("JOIN",): "JOIN",
+    ("ON", "DUPLICATE", "KEY", "UPDATE"): "ON DUPLICATE KEY UPDATE", ("WITH",): "WITH", ("JOIN",): "JOIN", ("RETURNING",): "RETURNING",
 }
 JOIN_PREFIX = {"LEFT", "RIGHT", "INNER", "OUTER", "FULL", "CROSS", "HASH"}
 
@@ -107,6 +107,8 @@ def run(tier: str) -> int:
                 if not key:
                     continue
                 orders = []
+                if d != "postgresql" and any(c["m"] == "returning" for c in ps[0]["calls"]):
+                    continue  # RETURNING is a PostgreSQL builder method
                 for p in ps:
                     env = execb.Env(Q)
                     # under the generic class every order is executed inside a branching history (sibling continuations are
